@@ -67,6 +67,9 @@ def make_data(shape, f):
         idx = np.stack(np.meshgrid(*[np.arange(n) for n in shape], indexing="ij"), -1)
         c = np.array([rng.uniform(0, n) for n in shape])
         d = 0.5 + 0.5 * np.tanh((0.3 * max(shape) - np.linalg.norm(idx - c, axis=-1)) / 1.0) + 0.01 * rng.uniform(-1, 1, shape)
+    if f.get("stripes"):  # oblique stripes with a sawtooth profile: neither mirror symmetric nor symmetric under axis exchange
+        idx = np.meshgrid(*[np.arange(n) for n in shape], indexing="ij")
+        d = d + 0.5 * ((sum(m * i / n for m, i, n in zip(f["stripes"], idx, shape)) * 2.0) % 1.0)
     return f["amp"] * d + f["offset"] * f["amp"]
 
 
@@ -109,6 +112,31 @@ class C16(Property):
     def strategy(self, tier):
         return specs(tier)
 
+    # grids with many cells (mode counts beyond block sizes of any chunked evaluation): a fixed sweep
+    LARGE = {"quick": [[66, 65], [130, 129], [300, 221], [41, 41, 41], [70001]], "thorough": [[66, 65], [130, 129], [300, 221], [41, 41, 41], [70001], [520, 260], [52, 51, 50]]}
+
+    def exhaustive_jobs(self, tier):
+        return [{"domain": "large-grids", "shape": shape, "variant": v} for shape in self.LARGE[tier] for v in range(2)]
+
+    def expand(self, job):
+        shape, v = job["shape"], job["variant"]
+        dim = len(shape)
+        spec = {
+            "shape": shape,
+            "spacing": [[0.5, 1.25, 0.8][a] for a in range(dim)] if v else [1.0] * dim,
+            "origin": [[-3.0, 0.0, 7.5][a] for a in range(dim)],
+            "field": {"kind": ["blob", "noise"][v], "seed": 17 + v + sum(shape), "amp": [1.0, 250.0][v], "offset": [0.0, 0.3][v], "dtype": "float64"},
+            "transform": {"scale": [-2.0, 1e-3][v], "shift": [n // 3 + a for a, n in enumerate(shape)], "flip": [a % 2 == v % 2 for a in range(dim)] if dim > 1 else [True], "perm": list(range(dim))[::-1], "stretch": [3.0, 0.04][v]},
+            "smoothing": ["auto", "rel"][v],
+            "add_zero": bool(v),
+            "wave_numbers_rel": [None, [0.0, 0.02, 0.11, 0.35, 0.9, 1.2]][v],
+        }
+        if v:
+            spec["sigma_rel"] = 0.05
+        if dim > 1:  # an anisotropic pattern on top, so that reflections and permutations are visible
+            spec["field"]["stripes"] = [3, 1, 2][:dim]
+        yield spec
+
     def check(self, spec, ctx: Ctx):
         from pde import ScalarField
 
@@ -133,6 +161,8 @@ class C16(Property):
         t = spec["transform"]
         N = data.size
         ctx.cls(f"dim{dim}", f"field:{spec['field']['kind']}", f"smoothing:{spec['smoothing']}", "odd-axis" if any(n % 2 for n in shape) else "even-axes")
+        if N > 4096:
+            ctx.cls("cells>" + str(max(t for t in (4096, 16384, 65536, 131072) if N > t)))
         field = ScalarField(grid, data)
         snap = data.tobytes()
         # an earlier analysis on a sibling grid (same shape, other aspect ratio / spacing) must leave no trace
